@@ -9,6 +9,7 @@
 package main
 
 import (
+	"anndbverif/lib/racepass"
 	"bytes"
 	"encoding/json"
 	"fmt"
@@ -162,6 +163,10 @@ const c05Keys = `^(replicas-apply-different-entries|replicas-do-not-converge|app
 
 func main() {
 	world.Quiet()
+	if len(os.Args) > 1 && os.Args[1] == "--race-pass" {
+		racePass()
+		return
+	}
 	if len(os.Args) > 2 && os.Args[1] == "--replay" {
 		switch ev.PartOf(os.Args[2]) {
 		case "C06":
@@ -271,13 +276,16 @@ func main() {
 	// lost, slow, interrupted by a crash, or arrives together with the appends behind it), counted here for replicas that end
 	// up having applied different things
 	run.RunPart("lagging-follower-C05", os.Getenv("VERIF_BIN_C05"), c05Keys, "VERIF_PART_MODE=directed", "VERIF_TUNABLE_snapshotOffset=0")
+	raceCov := racepass.Run(run, os.Getenv("VERIF_C04_RACE"))
 	run.Assumptions = []string{
+		"free-running pass with the race detector (a sample, not exhaustive): two partitions of one process apply, snapshot and restore at the same time",
 		"the C02 alphabet (ids {a,b,c}, 3 vectors, 5 metadata shapes, single and batch forms); entries are marshalled once and fed byte-identically to every replica",
 		"graph shape is not compared (legitimately order dependent); contents, counters and per-entry outcomes are",
 		"map-order policies: A ascending, B descending, C rotate-1, D rotate-2 (while restoring/applying)",
 	}
 	run.Finish(ev.Coverage{
 		"directed_multibyte_entries":    directed,
+		"race_pass":                     raceCov["race_pass"],
 		"states":                        total.States,
 		"transitions":                   total.Transitions,
 		"traces_validated_against_impl": total.Transitions,
